@@ -257,7 +257,7 @@ def check_json_order(rep, prog):
             bad = [k for k in cs.node.keywords if k.arg == "sort_keys" and not (isinstance(k.value, ast.Constant) and k.value.value is False)]
             rep.check(not bad, rule, "json.dumps at line %d keeps insertion order (no sort_keys)" % cs.node.lineno, cs.qual, cs.node,
                       "sort_keys re-orders the listing: entries are no longer in file-name order", node=cs.node, file=cs.module.rel)
-    rep.floor("json.dumps sites in peltool", n, 4)
+    rep.floor("json.dumps sites in peltool", n, 2)
 
 
 def run(rep, prog, thorough):
